@@ -39,6 +39,22 @@ type imageSpec struct {
 	NoSrcInfo  bool
 	Lits       map[string]fileLit // by image path
 	StripSCIOf []string           // imports whose source info is dropped from the fixture to keep cloning cheap
+	// OnlyPaths, if set, narrows the built image with bufimage.ImageWithOnlyPaths: the named files stay
+	// targets, every other file that is still needed becomes an import (what `buf generate --path` does).
+	OnlyPaths []string
+	// Blocks, if set, restricts the image to the named configuration blocks (family name, cross, off, v1).
+	Blocks map[string]bool
+	// Imports lists, by hand, the files that must be imports of the built image (harness sanity).
+	Imports map[string]bool
+}
+
+func (s *imageSpec) runsIn(block string) bool { return s.Blocks == nil || s.Blocks[block] }
+
+// wktPaths: the well-known-type files used by the fixtures, written down by hand.
+var wktPaths = map[string]bool{
+	"google/protobuf/descriptor.proto": true,
+	"google/protobuf/timestamp.proto":  true,
+	"google/protobuf/duration.proto":   true,
 }
 
 func defaultsFor(pkgJava, outer, objc, csharp, php, ruby string) map[string]string {
@@ -64,7 +80,7 @@ var oneV1Defaults = func(outer string) map[string]string {
 var wktLit = fileLit{WKT: true}
 
 func imageSpecs() []imageSpec {
-	return []imageSpec{
+	return append([]imageSpec{
 		{
 			Name:      "A-plain",
 			NoSrcInfo: true,
@@ -237,7 +253,7 @@ message Two {
 				"google/protobuf/duration.proto":  wktLit,
 			},
 		},
-	}
+	}, round2ImageSpecs()...)
 }
 
 // fieldInfo is one FieldDescriptorProto position found by the harness's own walker.
@@ -245,6 +261,17 @@ type fieldInfo struct {
 	FullName string
 	Path     []int32 // source path of the FieldDescriptorProto
 	Is64     bool    // jstype is only defined for the 64-bit integer types (descriptor.proto)
+}
+
+// fieldLocs indexes the source locations below one field's FieldOptions (path <field>,8).
+type fieldLocs struct {
+	Root   []int // locations with path <field>,8
+	JSType []int // locations with path <field>,8,6
+	Other  []int // every other location strictly below <field>,8
+	// MaxOtherDepth is the largest number of path elements after the 8 among Other (0 = none)
+	MinOtherDepth, MaxOtherDepth int
+	// Pseudo: the bracket list also holds default= or json_name=, which are not FieldOptions fields
+	Pseudo bool
 }
 
 // masterFile is the immutable "before" state of one image file.
@@ -256,6 +283,9 @@ type masterFile struct {
 	Fields []fieldInfo
 	// FieldPtrs[i] is the (never mutated) descriptor of Fields[i]
 	FieldPtrs []*descriptorpb.FieldDescriptorProto
+	// FieldLocs[i]: where the option locations of Fields[i] sit in the input SourceCodeInfo
+	FieldLocs []fieldLocs
+	IsImport  bool
 	LocKeys   []string // path key of every source location
 	// parentOf[i] = index of the `[8]` statement location enclosing file-option location i ([8,N,...]), else -1
 	parentOf []int
@@ -363,6 +393,11 @@ func buildMaster(ctx context.Context, spec imageSpec) (*master, error) {
 	if err != nil {
 		return nil, fmt.Errorf("image %s: %w", spec.Name, err)
 	}
+	if len(spec.OnlyPaths) > 0 {
+		if img, err = bufimage.ImageWithOnlyPaths(img, spec.OnlyPaths, nil); err != nil {
+			return nil, fmt.Errorf("image %s: %w", spec.Name, err)
+		}
+	}
 	for _, p := range spec.StripSCIOf {
 		f := img.GetFile(p)
 		if f == nil {
@@ -386,10 +421,17 @@ func buildMaster(ctx context.Context, spec imageSpec) (*master, error) {
 		if gotModule != lit.Module || f.FileDescriptorProto().GetPackage() != lit.Package && !lit.WKT {
 			return nil, fmt.Errorf("image %s: file %s built as module %q package %q, fixture says %q %q", spec.Name, f.Path(), gotModule, f.FileDescriptorProto().GetPackage(), lit.Module, lit.Package)
 		}
-		if lit.WKT != strings.HasPrefix(f.Path(), "google/protobuf/") {
+		if lit.WKT != wktPaths[f.Path()] {
 			return nil, fmt.Errorf("image %s: WKT flag of %s inconsistent", spec.Name, f.Path())
 		}
-		mf := &masterFile{Path: f.Path(), Lit: lit, Desc: f.FileDescriptorProto()}
+		wantImport := lit.WKT && lit.Module == ""
+		if spec.Imports != nil {
+			wantImport = spec.Imports[f.Path()]
+		}
+		if f.IsImport() != wantImport {
+			return nil, fmt.Errorf("image %s: file %s built with import=%v, fixture says %v", spec.Name, f.Path(), f.IsImport(), wantImport)
+		}
+		mf := &masterFile{Path: f.Path(), Lit: lit, Desc: f.FileDescriptorProto(), IsImport: f.IsImport()}
 		mf.NoSCI = proto.Clone(mf.Desc).(*descriptorpb.FileDescriptorProto)
 		mf.NoSCI.SourceCodeInfo = nil
 		walkFields(mf.Desc, func(info fieldInfo, _ *descriptorpb.FieldDescriptorProto) { mf.Fields = append(mf.Fields, info) })
@@ -425,6 +467,50 @@ func buildMaster(ctx context.Context, spec imageSpec) (*master, error) {
 				}
 				mf.parentOf[i] = best
 			}
+			// index the option locations of every field: <field>,8 / <field>,8,6 / anything else below <field>,8
+			rootOf := map[string]int{}
+			for i, info := range mf.Fields {
+				rootOf[pathKey(info.Path)+",8"] = i
+			}
+			mf.FieldLocs = make([]fieldLocs, len(mf.Fields))
+			keySet := map[string]bool{}
+			for _, k := range mf.LocKeys {
+				keySet[k] = true
+			}
+			for i, info := range mf.Fields {
+				// default_value is tag 7, json_name tag 10 of FieldDescriptorProto; json_name only has a location when written
+				mf.FieldLocs[i].Pseudo = keySet[pathKey(info.Path)+",7"] || keySet[pathKey(info.Path)+",10"]
+			}
+			for i, l := range sci.Location {
+				for n := 1; n <= len(l.Path); n++ {
+					if l.Path[n-1] != 8 {
+						continue
+					}
+					fi, ok := rootOf[pathKey(l.Path[:n])]
+					if !ok {
+						continue
+					}
+					fl := &mf.FieldLocs[fi]
+					depth := len(l.Path) - n
+					switch {
+					case depth == 0:
+						fl.Root = append(fl.Root, i)
+					case depth == 1 && l.Path[n] == 6:
+						fl.JSType = append(fl.JSType, i)
+					default:
+						fl.Other = append(fl.Other, i)
+						if fl.MinOtherDepth == 0 || depth < fl.MinOtherDepth {
+							fl.MinOtherDepth = depth
+						}
+						if depth > fl.MaxOtherDepth {
+							fl.MaxOtherDepth = depth
+						}
+					}
+					break
+				}
+			}
+		} else {
+			mf.FieldLocs = make([]fieldLocs, len(mf.Fields))
 		}
 		m.Files = append(m.Files, mf)
 	}
